@@ -33,6 +33,19 @@ MUTANTS = [
     ("c03_flows_not_reset", ["C03"], "bt/core.py", "            self._net_flows = 0\n            self._last_price = self._price", "            self._last_price = self._price"),
     ("c03_base_uses_value", ["C03"], "bt/core.py", "                    ret = self._value / (self._last_value + self._net_flows) - 1\n", "                    ret = self._value / (self._last_value + self._net_flows * 0.999) - 1\n"),
     ("c03_fee_counted_as_flow", ["C03", "C07"], "bt/core.py", "        if flow:\n            self._net_flows += amount\n", "        if flow:\n            self._net_flows += amount\n        elif fee != 0:\n            self._net_flows -= fee\n"),
+    # ---- C12
+    ("c12_monthly_drops_year", ["C12"], "bt/algos.py", "        if now.year != date_to_compare.year or now.month != date_to_compare.month:", "        if now.month != date_to_compare.month:"),
+    ("c12_quarterly_uses_month_div", ["C12"], "bt/algos.py", "        if now.year != date_to_compare.year or now.quarter != date_to_compare.quarter:", "        if now.year != date_to_compare.year or (now.month // 3) != (date_to_compare.month // 3):"),
+    ("c12_everyn_counts_repeats", ["C12"], "bt/algos.py", "        if self.lcall == target.now:\n            return False\n        else:", "        if False:\n            return False\n        else:"),
+    ("c12_afterdate_inclusive", ["C12"], "bt/algos.py", "        return target.now > self.date", "        return target.now >= self.date"),
+    ("c12_daily_compares_day_only", ["C12"], "bt/algos.py", "        if now.date() != date_to_compare.date():", "        if now.day != date_to_compare.day:"),
+    # ---- C13
+    ("c13_run_always_false_still_runs", ["C13"], "bt/core.py", "                    if algo.run_always:\n                        algo(target)", "                    algo(target)"),
+    ("c13_or_short_circuits", ["C13"], "bt/algos.py", "            tempRes = algo(target)\n            res = res | tempRes", "            tempRes = algo(target)\n            res = res | tempRes\n            if res:\n                break"),
+    ("c13_temp_not_cleared_for_children", ["C13"], "bt/core.py", "        # clear out temp data\n        self.temp = {}\n", "        # clear out temp data\n        if self.parent is self:\n            self.temp = {}\n"),
+    ("c13_require_none_default", ["C13"], "bt/algos.py", "        if item is None:\n            return self.if_none", "        if item is None:\n            return False"),
+    ("c13_oob_absolute_deviation", ["C13"], "bt/algos.py", "                deviation = abs((c.weight - targets[cname]) / targets[cname])", "                deviation = abs(c.weight - targets[cname])"),
+    ("c13_stack_result_of_run_always", ["C13"], "bt/core.py", "                    if algo.run_always:\n                        algo(target)", "                    if algo.run_always:\n                        res = algo(target)"),
     # ---- C08
     ("c08_fee_reset_every_update", ["C08", "C07"], "bt/core.py", "        # update now\n        self.now = date\n        if inow is None:\n            if self.now == 0:\n                inow = 0\n            else:\n                inow = self.data.index.get_loc(date)\n\n        # update children if any and calculate value", "        # update now\n        self.now = date\n        self._last_fee = 0.0\n        if inow is None:\n            if self.now == 0:\n                inow = 0\n            else:\n                inow = self.data.index.get_loc(date)\n\n        # update children if any and calculate value"),
     ("c08_outlay_row_accumulates", ["C08", "C07"], "bt/core.py", "            self._outlays.array[inow] += self._outlay\n            # reset outlay back to 0\n            self._outlay = 0\n", "            self._outlays.array[inow] += self._outlay\n"),
